@@ -21,6 +21,8 @@ All byte strings hex (`-` = empty).
 * `dec <S> <chunk>` → `ok <n> <pkt>…` | `fail <class> <n> <pkt>…` with `<pkt>` =
   `<type>:<payload>:<padLen>:<z|n>` (`z` = padding all zero)
 * `keys <S>` → `ok <enc key 72> <dec key 72>`; `drop <S>` → `ok`; `cli.clone <S> <S2>` → `ok`
+* `cli.newkey <S> <nodeid> <idpub> <xpriv> <xpub> <xrepr> <hour>` → `ok` (client with an explicit session key);
+  `link.swap <S> <S2>` → `ok` (S2 = the peer's link of the established session S: key blocks exchanged)
 * `forge.ntor <nodeid> <B named in the transcript> <impostor's identity private key> <X'> <tape>` →
   `ok <Y'> <AUTH> <KEY_SEED> <tape used>`: what a man in the middle without the bridge's private
   key can compute (own ephemeral key from the tape, DH with its own identity key)
@@ -175,6 +177,21 @@ def step (st : St) : List String → St × String
         | none, some .nonceWrapped => (st.put s { se with link := some l' }, "fail wrapped " ++ body)
         | none, none => (st.put s { se with link := some l' }, "ok " ++ body)
     | _, _ => (st, "bad-op")
+  | ["cli.newkey", s, nodeid, idpub, xpriv, xpub, xrepr, hour] =>
+    -- a client whose session key is given explicitly (recorded from a real endpoint), nothing sent yet
+    match unhexN? Consts.Ntor.nodeIDLength nodeid, unhexN? Consts.Ntor.publicKeyLength idpub,
+          unhexN? Consts.Ntor.privateKeyLength xpriv, unhexN? Consts.Ntor.publicKeyLength xpub,
+          unhexN? Consts.Ntor.representativeLength xrepr, hour.toInt? with
+    | some nid, some pk, some xs, some xp, some xr, some h =>
+      (st.put s { cli := some { xPriv := xs, xPub := xp, xRepr := xr, idPub := pk, nodeID := nid, hour := h, cache := none } },
+       "ok")
+    | _, _, _, _, _, _ => (st, "bad-op")
+  | ["link.swap", s, s2] =>
+    -- the peer's view of an established session: encoder and decoder key blocks exchanged, fresh counters
+    match st.get s with
+    | some { link := some l, .. } => (st.put s2 { link := some { keys := ⟨l.keys.dec, l.keys.enc⟩ } }, "ok")
+    | some _ => (st, "fail state")
+    | none => (st, "bad-op")
   | ["cli.clone", s, s2] =>
     match st.get s with
     | some se => (st.put s2 se, "ok")
